@@ -56,6 +56,10 @@ structure Side where
   /-- store folders carrying a `storeinfo.txt` -/
   infos : List (String × Info) := []
   reg : Reg := []
+  /-- `reghashmod.txt`: the registry hash modulus the database was created with (`none` = no file). A process that
+  opens the database without passing a value takes it from the ACTIVE folder's file (`GetRegistryHashModValue`);
+  without a file it falls back to `MinimumModValue` (250) and looks handles up in the wrong blocks. -/
+  hashmod : Option Nat := none
   /-- `replstat.txt` -/
   status : Option Flags := none
 deriving Repr, Inhabited
@@ -191,6 +195,33 @@ def passiveBlocked (b : Broken) (store : String) : Bool :=
 
 /-! ## operations -/
 
+/-- `NewReplicationTracker` + `NewStoreRepository(…, registryHashModVal = v)`: what every transaction
+(`v` = the configured value) and `RemoveBtree` (`v` = `MinimumModValue`) do first. When `v > 0` and the ACTIVE folder
+has no `reghashmod.txt`, the value is written there through a replication wrapper built with `trackActions = track`
+and `sw.replicate` replays the write on the passive folder (`fileIO.replicate` consults neither `FailedToReplicate`
+nor anything else; both errors are ignored). The code has `track = true`; with `false` the write is not recorded and
+`replicate` is a no-op (the variant that does not replicate this kind). -/
+def openRepoWith (track : Bool) (s : State) (v : Nat) : State :=
+  let (s, rt) := newTracker s
+  if v = 0 then s else
+  match (active s rt).hashmod with
+  | some _ => s
+  | none =>
+    let s := setActive s rt { active s rt with hashmod := some v }
+    if !track then s else
+    match s.broken with
+    | .drive => s
+    | _ => setPassive s rt { passive s rt with hashmod := some v }
+
+def openRepo (s : State) (v : Nat) : State := openRepoWith true s v
+
+/-- the modulus a process computes that opens folder `x` as active passing `v` (0 = "use the persisted one") -/
+def effectiveMod (x : Side) (v : Nat) : Nat :=
+  if v > 0 then v else
+  match x.hashmod with
+  | some n => if n > 0 then n else 250
+  | none => 250
+
 /-- A transaction creates store `name` (`NewBtree` on an absent name, nothing else in it). -/
 def create (s : State) (name : String) (slot : Nat) (unique : Bool) : State × String :=
   let (s, rt) := newTracker s
@@ -270,6 +301,7 @@ def copyStore (a : Side) (p : Side) (name : String) : Side :=
     { p with infos := put name i p.infos,
              reg := (a.reg.filter (fun e => decide (e.1.1 = name))) ++ dropTable name p.reg }
 
+/-- Note what the copier does NOT copy: `reghashmod.txt` (`p.hashmod` stays as it is). -/
 def copyStores (a p : Side) : Side :=
   let names := a.list.getD []
   names.foldl (copyStore a) { p with list := some names }
@@ -354,6 +386,7 @@ inductive Op
   | create (name : String) (slot : Nat) (unique : Bool)
   | commit (name : String) (count : Option Int) (roots added updated : List (RKey × String)) (removed : List RKey)
   | remove (name : String)
+  | openv (v : Nat)
   | brk (b : Broken)
   | heal (keep : Bool)
   | rphase (k : Nat)
@@ -366,6 +399,7 @@ def step (s : State) : Op → State × String
   | .create n sl u => create s n sl u
   | .commit n c r a u d => commit s n c r a u d
   | .remove n => remove s n
+  | .openv v => (openRepo s v, "ok")
   | .brk b => (breakPassive s b, "ok")
   | .heal k => (heal s k, "ok")
   | .rphase k => rphase s k
@@ -397,7 +431,7 @@ def showSide (x : Side) : String :=
   let regs := tabs.map fun t =>
     let hs := sortStrings ((x.reg.filter (fun e => decide (e.1.1 = t))).map fun e => e.1.2 ++ "/" ++ e.2)
     t ++ "=" ++ ",".intercalate hs
-  s!"list={l} infos=[{",".intercalate infos}] reg=[{";".intercalate regs}] st={showFlags x.status}"
+  s!"list={l} infos=[{",".intercalate infos}] reg=[{";".intercalate regs}] hm={match x.hashmod with | some n => toString n | none => "-"} st={showFlags x.status}"
 
 def showMeta (s : State) : String :=
   s!"g={showFlags s.g} l2={showFlags s.l2} logs={s.logs.length} F0: {showSide s.f0} F1: {showSide s.f1}"
@@ -410,6 +444,6 @@ def showCold (s : State) : String :=
   let items := names.map fun n => match get n a.infos with
     | some i => s!"{n}:{i.count}"
     | none => s!"{n}:?"
-  s!"active={if f.toggler then 0 else 1} failed={if f.failed then 1 else 0} stores=[{",".intercalate items}]"
+  s!"active={if f.toggler then 0 else 1} failed={if f.failed then 1 else 0} mod={a.hashmod.getD 0} stores=[{",".intercalate items}]"
 
 end Sop.Replication
